@@ -536,6 +536,10 @@ func classifyErr(err error) int {
 	case errors.Is(err, lifecycle.ErrRunning):
 		return 0
 	}
+	// through either kind of wrapping (pkg/errors or %w)
+	if errors.Is(err, context.Canceled) || errors.Is(err, context.DeadlineExceeded) {
+		return 3
+	}
 	cause := pkgerrors.Cause(err)
 	if cause != nil && (cause.Error() == "context canceled" || cause.Error() == "context deadline exceeded") {
 		return 3
